@@ -38,6 +38,39 @@ def check(rep, tier, seed):
     compare_cases(rep, "classify-function", ["classify %s" % g for g in gts], nontrivial=lambda c, m: "0/0" not in c,
                   classify=lambda c, m, i: "classify:" + m.split()[0], spec=True, both_builds=(tier == "thorough"))
 
+    # interaction of the classes within one record: every triple over {called, het, missing, multiallelic, haploid,
+    # triploid} in three selected columns (a non-diploid genotype must fail the record wherever it stands, whatever the
+    # other columns hold), with and without projection, strict and not, in memory and through the binary
+    alpha = ["0/0", "0/1", "./.", "1/2", "0", "0/1/1"]
+    triples = list(itertools.product(alpha, repeat=3))
+    tcases = []
+    for t3 in triples:
+        for proj in ("-", "s:3", "s:7"):
+            tcases.append("sites a,b,c ALL %s %s;0/1,0/1,0/1" % (proj, ",".join(t3)))
+        tcases.append("sites a,b,c a:A,c:B - %s" % ",".join(t3))
+    from fractions import Fraction
+    compare_cases(rep, "record-class-interaction", tcases, tol=Fraction(1, 10**9), nontrivial=lambda c, m: " E" in m,
+                  classify=lambda c, m, i: "classify:interaction", spec=True)
+    ijobs, icases = [], []
+    for t3 in (triples if tier == "thorough" else rng.sample(triples, 70)):
+        for extra, flag in (([], "0"), (["--strict"], "1")):
+            ijobs.append((["create"] + extra, render_vcf(["a", "b", "c"], [list(t3), ["0/1", "0/1", "0/1"]])))
+            icases.append("create %s a,b,c ALL - %s;0/1,0/1,0/1" % (flag, ",".join(t3)))
+    for job, (rc, so, se), exp, mc in zip(ijobs, run_cli_many(ijobs), run_model(icases), icases):
+        rep.count("record-class-interaction-cli", mc, "err=genotype" in exp)
+        stderr = se.decode(errors="replace")
+        if exp.startswith("OK"):
+            e = exp.split(); parsed = parse_text_spectrum(so)
+            good = rc == 0 and parsed is not None and parsed[1] == e[2].split(",")
+        else:
+            m = re.search(r"err=(\w+)@(\S+)", exp)
+            good = rc != 0 and so == b"" and not is_panic(rc, se) and (m is None or ("'%s'" % m.group(2)) in stderr) and \
+                (m is None or m.group(1) != "genotype" or "genotype" in stderr)
+        if not good:
+            rep.fail(kind="cli-vs-model", cls="classify-cli:interaction", case=mc, argv=["sfs"] + job[0], stdin=job[1].decode(),
+                     observed={"rc": rc, "stdout": so.decode(errors="replace")[:200], "stderr": stderr[-300:]}, expected=exp,
+                     detail="a record mixing classes in its selected columns: the run differs from the model (a non-diploid genotype must fail the run naming the record)")
+
     # (b),(c),(d): through the binary. one record, columns s1 (the GT under test), s2 = 0/1
     sel = gts if tier == "thorough" else [g for g in gts if g.count("/") + g.count("|") <= 1] + rng.sample(gts, 150)
     sel = list(dict.fromkeys(sel))
